@@ -19,11 +19,13 @@ use crate::util::*;
 pub fn bang_scale(r: &mut Runner, t: &[&str]) {
     let exe = std::env::current_exe().unwrap();
     let timeout = std::time::Duration::from_secs(600);
+    use std::os::unix::process::CommandExt;
     let mut child = match std::process::Command::new(&exe)
         .arg("scale")
         .args(&t[1..])
         .stdout(std::process::Stdio::piped())
         .stderr(std::process::Stdio::null())
+        .process_group(0) // its own group: on a hang the whole group (incl. `fst` grandchildren) is killed
         .spawn()
     {
         Ok(c) => c,
@@ -45,6 +47,7 @@ pub fn bang_scale(r: &mut Runner, t: &[&str]) {
             Ok(Some(st)) => break Some(st),
             Ok(None) => {
                 if t0.elapsed() > timeout {
+                    let _ = std::process::Command::new("kill").arg("-9").arg(format!("-{}", child.id())).status();
                     let _ = child.kill();
                     let _ = child.wait();
                     break None;
@@ -1038,7 +1041,7 @@ fn case_mergebig(o: &mut Out) {
             match child.try_wait().unwrap() {
                 Some(st) => break Some(st),
                 None => {
-                    if t0.elapsed().as_secs() > 180 {
+                    if t0.elapsed().as_secs() > 60 {
                         let _ = child.kill();
                         let _ = child.wait();
                         break None;
@@ -1052,8 +1055,10 @@ fn case_mergebig(o: &mut Out) {
         let _ = std::fs::remove_file(&outp);
         match st {
             None => {
-                o.check(false, || format!("C19 `fst {}` did not terminate within 180 s ({})", args.join(" "), label));
-                None
+                o.check(false, || format!("C19 `fst {}` did not terminate within 60 s ({})", args.join(" "), label));
+                println!("CHECKS {}", o.checks);
+                let _ = io::stdout().flush();
+                std::process::exit(0) // one hang is enough: do not wait for the others
             }
             Some(s) if !s.success() => {
                 o.check(false, || format!("C19 `fst {}` exited with {:?} ({})", args.join(" "), s.code(), label));
